@@ -258,6 +258,15 @@ func (c *Ctx) c12Cleanup() {
 			if s == nil || s.Kind() != types.MethodVal || !strings.HasPrefix(s.Obj().Name(), "evict") {
 				return true
 			}
+			isBackend := false
+			for _, b := range backends {
+				if rn := namedTypeName(s.Recv()); rn == b.Name || rn == b.Wrapper {
+					isBackend = true
+				}
+			}
+			if !isBackend {
+				return true
+			}
 			nRef++
 			okRef := strings.HasPrefix(encl, "New") || strings.Contains(encl, ".evict")
 			if !okRef {
@@ -560,9 +569,7 @@ func relSetStr(rel uint8) string {
 func (c *Ctx) c12Counter() {
 	r := c.R
 	for _, name := range []string{"Trait.PrepareRead", "TraitOf.PrepareRead"} {
-		e, paths, _, err := c.runFunc(name, pw.Policy{Inline: func(fn *types.Func, d int) bool {
-			return !fn.Exported() && fn.Pkg() != nil && fn.Pkg().Name() == "cache" && fn.Type().(*types.Signature).Recv() == nil
-		}})
+		e, paths, _, err := c.runFunc(name, pw.Policy{})
 		if err != nil {
 			r.Unknown("R12.3", name, err.Error())
 			continue
